@@ -32,8 +32,9 @@ import (
 // preserves evaluation order (only the lexically first call of a statement
 // header is lifted, short-circuit operands are lifted under their guard) and
 // is skipped whenever one of its preconditions fails (recursion, defer,
-// labels, variadics, generics, names that would be captured, types that cannot
-// be spelled in the caller's file). What was inlined is reported in the
+// labels, variadics, methods of generic types, names that would be captured,
+// types that cannot be spelled in the caller's file; a generic function is
+// inlined per call site with the type arguments of that call, genericInstance). What was inlined is reported in the
 // evidence. Inlining is semantics preserving, so a violation remains a
 // violation on the normalised program.
 
@@ -1206,6 +1207,7 @@ func (nz *normalizer) onlyCalled(callee types.Object, p *types.Var) bool {
 //   - declares its temporaries with the types of the INSTANCE's signature (returned as tsig), and
 //   - starts the inlined body with `type Pi = Ai` for every type parameter the body (or the type of a named result) mentions
 //     (returned as decls), so that the body text means what it means inside the instance.
+//
 // For a function without type parameters tsig is its own signature and decls is empty. tsig == nil (with a reason)
 // when the instance is not recorded, a type argument mentions a type parameter itself (a call inside another generic
 // body: `type T = T` would be a cycle) or cannot be written in the caller's package; the call then stays a call.
